@@ -144,6 +144,16 @@ register("C10",
     "Trusted: clang AST/CFG/call graph; engine/microai; the displayRoute()/router accessors are abstracted by hooks.",
     "guarded-by entailment with early-exit guards, symbolic evaluation of the position write-back, call-graph closure rule, mirror siblings",
     "DESIGN.md §5 C10")
+register("C12",
+    "Decides how a hyperedge tree (the temporary mirror that rerouting and improvement edit) is written back: addConns / "
+    "listJunctionsAndConnectors / writeEdgesToConns are interpreted on abstract trees (hand-made shapes plus every tree of up to 6 nodes, "
+    "7 in the thorough tier): one connector per junction-free path, exactly one source and one target end per connector, every terminal the "
+    "end of exactly one connector, junction and connector lists complete and duplicate-free, routes through the path's points between the "
+    "positions of the two ends; performRerouting writes every hyperedge with terminals back and deletes every registered old connector "
+    "and junction. Does not decide that the spanning-tree construction or the improver produce a tree over all terminals.",
+    "Trusted: the interpreter; ConnRef / ConnEnd / Router are abstracted by hooks that record end-point updates.",
+    "abstract interpretation of the write-back recursion on an enumerated family of abstract trees + CFG coverage rules",
+    "DESIGN.md §5 C12")
 register("C14",
     "Weak but exact: along every path of doHOLA the padding applied to the caller's nodes sums to zero for core nodes and for non-root tree "
     "nodes (abstract execution over polynomial padding sums), padding primitives add exactly (dw,dh) to every intended node, every routing "
@@ -153,11 +163,10 @@ register("C14",
     "abstract interpretation of doHOLA over an additive padding domain + who-writes / constructor-argument rules",
     "DESIGN.md §5 C14")
 for _p, _r in {
- "C12": "tree-ness and terminal preservation of hyperedges are invariants of dynamically rewritten run-time graphs; not visible in code shape",
  "C13": "topology preservation depends on run-time geometry of paths and rectangles; the library's own checks are run-time asserts",
  "C19": "partition / planarity of decompositions are invariants of run-time graph data",
 }.items():
     na(_p, _r)
-for _p in ["C01","C02","C03","C04","C05","C06","C07","C08","C09","C10","C11","C14","C16","C17","C18","C20"]:
+for _p in ["C01","C02","C03","C04","C05","C06","C07","C08","C09","C10","C11","C12","C14","C16","C17","C18","C20"]:
     if _p not in CHECKS:
         na(_p, "static check designed (DESIGN.md §5) but not yet registered in this commit")
